@@ -143,10 +143,11 @@ class EFloatFormat(EncodableFormat):
     def representable_in(self, x: RealFloat | Float) -> bool:
         match x:
             case Float():
-                if x.isinf and not self.enable_inf:
-                    return False
-                if x.isnan and self.nan_kind == EFloatNanKind.NONE:
-                    return False
+                # special values do not depend on the finite value set
+                if x.isinf:
+                    return self.enable_inf
+                if x.isnan:
+                    return self.nan_kind != EFloatNanKind.NONE
             case RealFloat():
                 pass
             case _:
